@@ -26,6 +26,8 @@ func runC11(c *Ctx) {
 	c11WeightArith(c)
 	// the per-listener answer limit reaches the sampler only if every listener's chain ends at its own max-answer handler
 	c.importRules(runC20, "C20", map[string]string{"samemux": "samemux"})
+	// a weighted answer served from the cache is one sample replayed: the cache may hold it only under the explicit WRS timeout
+	c.importRules(runC12, "C12", map[string]string{"weighted": "cache-weighted"})
 }
 
 func c11Bounded(c *Ctx) {
